@@ -76,6 +76,8 @@ def observe(config):
             ls[str(d)] = [[_num(l), _num(s_)] for l, s_ in d.get_ls_list()]
     s["particles"] = parts
     s["ls"] = ls
+    # the C quantum number each particle carries (None: not declared); used by the c_break card family only
+    s["C"] = {str(p): _num(getattr(p, "C", None)) for ch in dg for p in ch.get_all_particles()}
     # the line-shape class each particle was built with (the `model` / `bw` key selects it)
     s["models"] = {str(p): type(p).__name__ for ch in dg for p in ch.get_all_particles()}
     # the topology-level structure (slot names, no cuts) the loader keeps next to the full decay group
@@ -334,10 +336,17 @@ def _draw_card(rng, tag, body):
 # ---------------------------------------------------------------------------------------------
 
 
-def ls_allowed(j0, p0, j1, p1, j2, p2, p_break=False, l_list=None):
+def ls_allowed(j0, p0, j1, p1, j2, p2, p_break=False, l_list=None, c0=None, c_break=True):
     """all (L,S) of 0 -> 1 2:  |J1-J2| <= S <= J1+J2 (integer steps), L a non-negative integer with |L-S| <= J0 <= L+S,
-    P0 = P1 P2 (-1)^L unless p_break, L restricted to l_list if given"""
+    P0 = P1 P2 (-1)^L unless p_break, L restricted to l_list if given.
+    C parity: the library documents the per-decay option `c_break: False` as "enable C parity select C=(-1)^(l+s)" (config.sample.yml; docstring of
+    tf_pwa.particle.GetA2BC_LS_list: "ca: enable c parity select c=(-1)^(l+s)"), the textbook rule for a particle-antiparticle pair (bosons and fermions
+    alike): a decay with c_break False whose mother declares C keeps only the couplings with C0 = (-1)^(L+S).  The default (c_break True) and a mother
+    without C select nothing.  S is an integer whenever the rule applies (the two daughters are of one spin class)."""
     a, b, c = (int(2 * Fraction(x)) for x in (j0, j1, j2))
+    use_c = (c_break is False) and c0 is not None
+    if use_c and (b + c) % 2:
+        raise ValueError("C-parity selection asked for daughters of different spin class: outside the grammar")
     out = []
     for s2 in range(abs(b - c), b + c + 1, 2):
         if (a - s2) % 2:
@@ -348,6 +357,8 @@ def ls_allowed(j0, p0, j1, p1, j2, p2, p_break=False, l_list=None):
             if not p_break and p0 != p1 * p2 * (-1) ** L:
                 continue
             if l_list is not None and L not in l_list:
+                continue
+            if use_c and c0 != (-1) ** (L + s2 // 2):
                 continue
             out.append((L, Fraction(s2, 2)))
     return out
@@ -397,7 +408,8 @@ def oracle(card):
     ls = {}
     for core, outs, opts in conc:
         a, b, c = props[core], props[outs[0]], props[outs[1]]
-        ls[(core, outs)] = ls_allowed(a["J"], a["P"], b["J"], b["P"], c["J"], c["P"], bool(opts.get("p_break")), opts.get("l_list"))
+        ls[(core, outs)] = ls_allowed(a["J"], a["P"], b["J"], b["P"], c["J"], c["P"], bool(opts.get("p_break")), opts.get("l_list"),
+                                      c0=a.get("C"), c_break=opts.get("c_break", True))
     allowed, forbidden, stray = {}, {}, 0
     for ch in expand(card["top"][0]):
         if leaves(ch) != finals:
@@ -1327,4 +1339,243 @@ def c19_include_shared_table(ctx):
         need = dict(cov, first_override_visible_in_V0=cov["first_override_visible_in_V0"] == cov["families"])
         acc.add("coverage", all(bool(x) for x in need.values()), "a feature never occurred / a V1 is indistinguishable from V0", {"coverage": cov})
         ctx.count(key="coverage", sample={"families": n_fam, "loads_in_sequences": nload, "fresh_interpreter_loads": len(fresh_cfgs), "coverage": cov})
+    acc.flush()
+
+
+# ---------------------------------------------------------------------------------------------
+# group 5: cards with C quantum numbers and the per-decay option `c_break: False`
+# ---------------------------------------------------------------------------------------------
+# A finite, fully enumerated family (no random draw): one resonance slot X -> B C whose candidate list holds one candidate per J^PC hypothesis,
+# the pair B C being two vectors, vector + pseudoscalar (both orders), two pseudoscalars, or a spin-1/2 fermion-antifermion-like pair (opposite
+# intrinsic parity).  The oracle is `ls_allowed` above with the documented rule C_X = (-1)^(L+S).  The library's convention does not look at a C
+# of the daughters (the option itself declares the pair to be particle-antiparticle-like); the finals therefore carry no C except in one variant
+# that declares it, which must not change anything.
+
+# label, J, P, C (None: not declared)
+_JPC = [("0mp", 0, -1, 1), ("0pp", 0, 1, 1), ("1mm", 1, -1, -1), ("1mp", 1, -1, 1), ("1pp", 1, 1, 1), ("2pp", 2, 1, 1), ("2mp", 2, -1, 1),
+        ("1pm", 1, 1, -1), ("0mm", 0, -1, -1), ("2mm", 2, -1, -1), ("1mN", 1, -1, None)]
+# daughters (J, P) of the c_break vertex
+_CPAIRS = {"VV": ((1, -1), (1, -1)), "VP": ((1, -1), (0, -1)), "PV": ((0, -1), (1, -1)), "PP": ((0, -1), (0, -1)), "ff": ((HALF, 1), (HALF, -1))}
+# options of the vertex X -> B C
+_XOPTS = {"c_off": {"c_break": False}, "c_off+p_break": {"c_break": False, "p_break": True}, "default": {}, "c_on": {"c_break": True},
+          "c_off+l_list01": {"c_break": False, "l_list": [0, 1]}}
+# decaying particle and options of the production vertex A -> X D
+_TOPS = {"weak0": ({"J": 0, "P": -1}, {"p_break": True}), "weak1": ({"J": 1, "P": -1}, {"p_break": True}),
+         "strong1mm": ({"J": 1, "P": -1, "C": -1}, {}), "strong1mm+c_off": ({"J": 1, "P": -1, "C": -1}, {"c_break": False})}
+
+
+def _c_cand(label, j, p, c, mass):
+    pr = {"J": Fraction(j), "P": p, "mass": mass, "width": 0.1}
+    if c is not None:
+        pr["C"] = c
+    return pr
+
+
+def c_card3(tag, pair, xopt, top, reverse=False, finals_c=False):
+    """A -> X D, X -> B C with one candidate of X per J^PC hypothesis"""
+    N = lambda x: "%s%s" % (x, tag)  # noqa: E731
+    (jb, pb), (jc, pc) = _CPAIRS[pair]
+    fin = [(N("B"), {"J": Fraction(jb), "P": pb, "mass": _FMASS["B"]}), (N("C"), {"J": Fraction(jc), "P": pc, "mass": _FMASS["C"]}),
+           (N("D"), {"J": Fraction(0), "P": -1, "mass": _FMASS["D"]})]
+    if finals_c:
+        fin[2][1]["C"] = 1  # a declared C of a daughter is not part of the documented rule: nothing may change
+    tp, topt = _TOPS[top]
+    jpc = list(reversed(_JPC)) if reverse else list(_JPC)
+    names = [N("X" + lab) for lab, _, _, _ in jpc]
+    cands = {N("X" + lab): _c_cand(lab, j, p, c, round(2.0 + 0.15 * i, 3)) for i, (lab, j, p, c) in enumerate(jpc)}
+    outs_x = [N("B"), N("C")]
+    return {"tag": tag, "body": 3, "top": (N("A"), dict({"J": Fraction(tp["J"])}, **{k: v for k, v in tp.items() if k != "J"}, mass=5.0)), "finals": fin,
+            "slots": {N("X"): names}, "cands": cands,
+            "decays": [(N("A"), [N("X"), N("D")] if not reverse else [N("D"), N("X")], dict(topt)), (N("X"), outs_x, copy.deepcopy(_XOPTS[xopt]))], "stray": [],
+            "family": {"pair": pair, "x_options": xopt, "top": top, "candidates_reversed": reverse, "final_D_declares_C": finals_c}}
+
+
+def c_card4(tag, pair_x, pair_y, xopt, yopt):
+    """A -> X Y, X -> B C, Y -> D E: two C-selecting vertices in one chain"""
+    N = lambda x: "%s%s" % (x, tag)  # noqa: E731
+    fin = []
+    for nm_, (j, p) in zip("BCDE", _CPAIRS[pair_x] + _CPAIRS[pair_y]):
+        fin.append((N(nm_), {"J": Fraction(j), "P": p, "mass": _FMASS[nm_]}))
+    xs = [x for x in _JPC if x[0] in ("0mp", "1mm", "1mp", "2pp", "1mN")]
+    ys = [x for x in _JPC if x[0] in ("0pp", "1mm", "1pp", "2mp")]
+    cands = {}
+    for i, (lab, j, p, c) in enumerate(xs):
+        cands[N("X" + lab)] = _c_cand(lab, j, p, c, round(2.0 + 0.1 * i, 3))
+    for i, (lab, j, p, c) in enumerate(ys):
+        cands[N("Y" + lab)] = _c_cand(lab, j, p, c, round(1.5 + 0.1 * i, 3))
+    return {"tag": tag, "body": 4, "top": (N("A"), {"J": Fraction(0), "P": -1, "mass": 7.0}), "finals": fin,
+            "slots": {N("X"): [N("X" + x[0]) for x in xs], N("Y"): [N("Y" + y[0]) for y in ys]}, "cands": cands,
+            "decays": [(N("A"), [N("X"), N("Y")], {"p_break": True}), (N("X"), [N("B"), N("C")], copy.deepcopy(_XOPTS[xopt])),
+                       (N("Y"), [N("D"), N("E")], copy.deepcopy(_XOPTS[yopt]))], "stray": [],
+            "family": {"pair_X": pair_x, "pair_Y": pair_y, "x_options": xopt, "y_options": yopt, "top": "weak0"}}
+
+
+def c_cards(tier):
+    cards = []
+    quick = tier == "quick"
+    k = 0
+    for pair in _CPAIRS:
+        for xopt in _XOPTS:
+            for top in _TOPS:
+                if quick and not (top == "weak0" or xopt == "c_off"):
+                    continue
+                k += 1
+                cards.append(c_card3("q%d" % k, pair, xopt, top, reverse=k % 3 == 0, finals_c=k % 5 == 0))
+    for px, py, xo, yo in (("VV", "PP", "c_off", "c_off"), ("VP", "VV", "c_off", "c_off"), ("VV", "VV", "c_off", "default"), ("ff", "PV", "c_off+p_break", "c_off"),
+                           ("PP", "ff", "c_off", "c_off+l_list01")):
+        k += 1
+        cards.append(c_card4("q%d" % k, px, py, xo, yo))
+    return cards
+
+
+def c_features(card, orc):
+    """coverage facts of one card: what the C selection does at its vertices (oracle side only)"""
+    f = {"c_forbidden_chain": 0, "odd_s_kept": 0, "c_prunes_part_of_a_vertex": 0, "c_off_without_declared_C": 0, "declared_C_ignored_by_default": 0, "c_vertices": 0}
+    P = orc["props"]
+    opts_of = {(c, o): op for c, o, op in orc["conc"]}
+    for (core, outs), v in orc["ls"].items():
+        op = opts_of[(core, outs)]
+        a, b, c = P[core], P[outs[0]], P[outs[1]]
+        without_c = ls_allowed(a["J"], a["P"], b["J"], b["P"], c["J"], c["P"], bool(op.get("p_break")), op.get("l_list"))
+        if op.get("c_break") is False and a.get("C") is not None:
+            f["c_vertices"] += 1
+            f["odd_s_kept"] += any(int(s_) % 2 == 1 for _, s_ in v)
+            f["c_prunes_part_of_a_vertex"] += 0 < len(v) < len(without_c)
+        elif op.get("c_break") is False:
+            f["c_off_without_declared_C"] += 1
+        elif a.get("C") is not None and core != card["top"][0]:
+            f["declared_C_ignored_by_default"] += 1
+    for k_, bad in orc["forbidden"].items():
+        for core, outs in bad:
+            op = opts_of[(core, outs)]
+            a, b, c = P[core], P[outs[0]], P[outs[1]]
+            if ls_allowed(a["J"], a["P"], b["J"], b["P"], c["J"], c["P"], bool(op.get("p_break")), op.get("l_list")):
+                f["c_forbidden_chain"] += 1
+    return f
+
+
+@group(["C19"], "iface.C19/c_parity_selection",
+       _FUNCS + ["particle:GetA2BC_LS_list", "particle:Decay.get_ls_list", "config_loader.decay_config:DecayConfig.decay_cut"], env="tf", kind="B",
+       bound="enumerated family (no random draw): 3-body cards A -> X D, X -> B C with ONE candidate of X per J^PC in {0-+, 0++, 1--, 1-+, 1++, 2++, 2-+, 1+-, 0--, "
+             "2--, 1- without C} (all in one candidate list; declared order or reversed), pair B C in {two vectors, vector+pseudoscalar, pseudoscalar+vector, two "
+             "pseudoscalars, spin-1/2 pair of opposite parity}, options of X -> B C in {c_break: False; c_break: False + p_break: True; none; c_break: True; "
+             "c_break: False + l_list [0,1]}, production vertex in {A(0-) p_break, A(1-) p_break, A(1--) parity conserving, A(1--) c_break: False}: 39 (quick: every pair "
+             "x every X option with A(0-), every pair x every production vertex with c_break: False) / 96 (thorough: full product) cards, the 1 / 4 cards of the "
+             "product without any allowed chain left out; 5 4-body cards A -> X Y, X -> B C, Y -> D E with candidate lists on both slots; candidate list spelling on even, decays enumerated "
+             "candidate by candidate on odd cards; every card loaded twice; plus the vertex grid Decay(A,[B,C]).get_ls_list() for J_A in 0..3, J_B, J_C in "
+             "{0, 1/2, 1, 2} of one spin class, all parities, C_A in {+1, -1, None}, p_break and c_break in {False, True} (3840 vertices)",
+       assumes=["documented convention (config.sample.yml `c_break: False # enable C parity select C=(-1)^(l+s)`, docstring of GetA2BC_LS_list): a decay with c_break "
+                "False whose mother declares C keeps exactly the couplings with C_mother = (-1)^(L+S); the C of the daughters is not consulted; default c_break is True",
+                "a card whose chains are all forbidden is outside the grammar (the loader refuses it); every card here has an allowed chain"])
+def c19_c_parity(ctx):
+    ConfigLoader = ctx.mod("config_loader").ConfigLoader
+    particle = ctx.mod("particle")
+    acc = Acc(ctx)
+    rule = "spin triangles, P_A = P_B P_C (-1)^L unless p_break, C_A = (-1)^(L+S) when c_break is False and A declares C, l_list"
+    cl = {
+        "loadable": "every card of the family loads (ConfigLoader, get_decay, get_amplitude) without an exception",
+        "forbidden_absent": "no chain containing a decay without an allowed (L,S) (%s) is present" % rule,
+        "allowed_present": "every chain whose vertices all have an allowed (L,S) (%s) is present: no allowed candidate is cut" % rule,
+        "ls_lists": "the (L,S) list of every decay of every surviving chain is exactly the oracle's (%s), as a set and without repetition" % rule,
+        "coupling_count": "the amplitude has exactly one complex coupling <decay>_g_ls_<k> (r and i) per allowed (L,S) of every decay of every surviving chain",
+        "quantum_numbers": "every particle of every chain carries the declared J, P, mass, width and the declared C (None if not declared)",
+        "chain_is_tree": "every chain is a tree of two-body decays rooted at $top whose leaves are exactly the declared final particles; no chain is listed twice",
+        "second_load_same": "a second load of the same dict object gives the same ordered chains, (L,S) lists, parameter names, trainable_vars and bound_dic",
+        "vertex_grid/ls_list": "particle.Decay(A, [B, C], p_break=, c_break=).get_ls_list() is exactly the oracle's list (as a set, no repetition) for every vertex of the grid",
+        "coverage": "the family contains chains forbidden by C alone, C-selecting vertices that keep a coupling with odd S, vertices where C removes some but not all "
+                    "couplings, c_break: False on a mother without C, mothers with C under the default c_break, and cards of both spellings (non-vacuity)",
+    }
+    for k, c in cl.items():
+        acc.declare(k, c)
+    tot = {"list_spelling": 0, "expanded_spelling": 0, "body4": 0}
+    cards = c_cards(ctx.tier)
+    for i, card in enumerate(cards):
+        orc = oracle(card)
+        if not orc["allowed"]:
+            # every candidate forbidden: the loader refuses such a card ('not decay chain aviable'), outside the grammar like everywhere in this module
+            tot["cards_without_allowed_chain_skipped"] = tot.get("cards_without_allowed_chain_skipped", 0) + 1
+            continue
+        for k, v in c_features(card, orc).items():
+            tot[k] = tot.get(k, 0) + v
+        tot["body4"] += card["body"] == 4
+        expanded = i % 2 == 1
+        tot["expanded_spelling" if expanded else "list_spelling"] += 1
+        cfg, _ = render(card, {"cand": "expanded" if expanded else "list", "nested": i % 4 < 2, "split_opts": i % 3 == 1})
+        s = summarise(ConfigLoader, cfg, same_object=True)
+        s2 = summarise(ConfigLoader, cfg, same_object=True)
+        ctx.count(key=json.dumps(cfg), sample=_sample(i, {"family": card["family"], "allowed": len(orc["allowed"]), "forbidden": len(orc["forbidden"]), "config": cfg}))
+        w0 = {"family": card["family"], "config": cfg, "card": _card_brief(card)}
+        bad = [x for x in (s, s2) if x["error"]]
+        acc.add("loadable", not bad, "exception while loading", dict(w0, error=bad[0]["error"], traceback=bad[0].get("traceback")) if bad else None)
+        if bad:
+            continue
+        got = chains_ordered(s)
+        keys = [chain_key(ch) for ch in got]
+
+        def _ls_txt(k_):
+            # k_: order-free chain key of an allowed chain; the oracle keeps the decays in declared daughter order
+            return {"%s->%s" % (d_[0], "+".join(d_[1])): [[l, float(x)] for l, x in orc["ls"][(d_[0], d_[1])]] for d_ in orc["allowed"][k_]}
+
+        w1 = dict(w0, loaded_chains=_brief(s)["chains"], loaded_ls=s["ls"],
+                  expected_allowed=[{"chain": list(map(list, k_)), "oracle_ls": _ls_txt(k_)} for k_ in orc["allowed"]],
+                  expected_forbidden=[{"chain": list(map(list, k_)), "vertices_without_LS": [list(x) for x in v]} for k_, v in orc["forbidden"].items()])
+        why = [(_tree_ok(ch, card["top"][0], orc["finals"]), ch) for ch in got]
+        badt = [(m, ch) for m, ch in why if m]
+        acc.add("chain_is_tree", not badt and len(set(keys)) == len(keys), badt[0][0] if badt else "duplicate chain", dict(w1, chain=badt[0][1] if badt else None))
+        forb = [k_ for k_ in keys if k_ in orc["forbidden"]]
+        acc.add("forbidden_absent", not forb, "a chain forbidden by the selection rules is present",
+                dict(w1, chain=forb[:1], vertices_without_LS=[orc["forbidden"][k_] for k_ in forb[:1]]))
+        miss = [k_ for k_ in orc["allowed"] if k_ not in keys]
+        acc.add("allowed_present", not miss, "an allowed chain is missing",
+                dict(w1, missing_chain=[list(map(list, k_)) for k_ in miss[:1]], oracle_ls_of_missing_chain=_ls_txt(miss[0]) if miss else None))
+        badls, badn = None, None
+        pn = s["param_names"]
+        for ch in got:
+            for c, o in ch:
+                want = orc["ls"].get((c, o))
+                if want is None:
+                    continue
+                have = s["ls"]["%s->%s" % (c, "+".join(o))]
+                hv = [(int(l), Fraction(x).limit_denominator(2)) for l, x in have]
+                if sorted(hv) != sorted(want) or len(set(hv)) != len(hv):
+                    badls = badls or {"decay": [c, list(o)], "library": have, "oracle": [[l, float(x)] for l, x in want]}
+                stem = "%s->%s.%s_g_ls_" % (c, o[0], o[1])
+                n_r = sum(1 for n in pn if n.startswith(stem) and n.endswith("r"))
+                n_i = sum(1 for n in pn if n.startswith(stem) and n.endswith("i"))
+                if (n_r, n_i) != (len(want), len(want)):
+                    badn = badn or {"decay": [c, list(o)], "couplings_r_i": [n_r, n_i], "oracle_number_of_LS": len(want), "names": [n for n in pn if n.startswith(stem)]}
+        acc.add("ls_lists", badls is None, "(L,S) list differs", dict(w1, **(badls or {})))
+        acc.add("coupling_count", badn is None, "number of g_ls couplings differs from the number of allowed (L,S)", dict(w1, param_names=pn, **(badn or {})))
+        P = orc["props"]
+        badq = [n for n, v in s["particles"].items()
+                if n not in P or not all(_close(a, b) for a, b in zip(v, [float(P[n]["J"]), float(P[n]["P"]), P[n].get("mass"), P[n].get("width")]))
+                or not _close(s["C"].get(n), None if P[n].get("C") is None else float(P[n]["C"]))]
+        acc.add("quantum_numbers", not badq, "particle %s differs from its declaration" % badq[:1], dict(w1, particle=badq[:1], loaded_JPmw=s["particles"], loaded_C=s["C"]))
+        d = first_diff(s, s2, ordered=True, struct=True) or (None if s["ls"] == s2["ls"] else "ls lists")
+        acc.add("second_load_same", d is None, "%s differ between two loads of the same dict" % d, dict(w0, differs_in=d, first=_brief(s), second=_brief(s2)))
+    # vertex grid: the Decay object alone (this also sees the vertices that the chain cut removes)
+    n_grid = 0
+    js = [Fraction(0), HALF, Fraction(1), Fraction(2)]
+    for ja in range(0, 4):
+        for jb, jc in itertools.product(js, js):
+            if _is_half(jb) != _is_half(jc):
+                continue
+            for pa, pb, pc, ca, p_break, c_break in itertools.product((1, -1), (1, -1), (1, -1), (1, -1, None), (False, True), (False, True)):
+                n_grid += 1
+                tg = "g%d" % n_grid  # own names per vertex: particles of one name share process-global caches
+                A = particle.BaseParticle("A" + tg, J=ja, P=pa, C=ca)
+                B = particle.BaseParticle("B" + tg, J=float(jb) if _is_half(jb) else int(jb), P=pb)
+                Cc = particle.BaseParticle("C" + tg, J=float(jc) if _is_half(jc) else int(jc), P=pc)
+                dec = particle.Decay(A, [B, Cc], p_break=p_break, c_break=c_break)
+                have = [(int(l), Fraction(float(x)).limit_denominator(2)) for l, x in dec.get_ls_list()]
+                want = ls_allowed(ja, pa, jb, pb, jc, pc, p_break, None, c0=ca, c_break=c_break)
+                ok = sorted(have) == sorted(want) and len(set(have)) == len(have)
+                acc.add("vertex_grid/ls_list", ok, "(L,S) list of the vertex differs",
+                        {"J_A": ja, "P_A": pa, "C_A": ca, "J_B": float(jb), "P_B": pb, "J_C": float(jc), "P_C": pc, "p_break": p_break, "c_break": c_break,
+                         "library": [[l, float(x)] for l, x in have], "oracle": [[l, float(x)] for l, x in want]})
+    ctx.count(key="vertex_grid", sample={"vertices": n_grid})
+    need = ["c_forbidden_chain", "odd_s_kept", "c_prunes_part_of_a_vertex", "c_off_without_declared_C", "declared_C_ignored_by_default", "c_vertices",
+            "list_spelling", "expanded_spelling", "body4"]
+    acc.add("coverage", all(tot.get(k, 0) > 0 for k in need), "a feature never occurred", {"totals": tot})
+    ctx.count(key="coverage", sample={"cards": len(cards), "feature_totals": tot})
     acc.flush()
